@@ -30,6 +30,7 @@ func init() {
 			{ID: "C05-R8", Doc: "row i is buffered for partition shards[i], once, and every buffered row is written", Run: c05r8},
 			{ID: "C11-R1", Doc: "hash and comparison address row i of a view at storage index i+off, so a key's shard does not depend on its position in a vector (shared)", Run: c11r1},
 			{ID: "C18-R8", Doc: "operators that key by a prefix reject inputs whose key prefix or key column types differ (Cogroup), so equal keys are hashed over the same columns by every producer (shared)", Run: c18r8},
+			{ID: "C08-R2", Doc: "task sets the memo keeps apart (different partitioners or widths) get distinct names minted by the namer: workers and stores key partitions by task name, so a shared name files rows under the other set's shards (shared)", Run: c08r2},
 			{ID: "C05-R9", Doc: "driver and worker agree on one location per dependency task", Run: c05r9},
 		},
 	})
